@@ -23,7 +23,7 @@ def run(tier: str, keep: bool = False) -> int:
     # a NAK while the EOF awaits its ACK, between expiries of the positive ACK timer: the retry procedure goes on undisturbed
     # (monitor C04 judges the EOF re-sends and the limit from the clock, monitor C08 the retry count across the NAK call)
     r.solo("nakTimer", "S", 'Numbered({ [SoloBase(l, 1, 2) EXCEPT !.ackInt = 700] : l \\in {2, 3} })', ["tick", "tick400", "poll", "nak"],
-           9 if q else 10, props + ["C04"], pre=[["put"], ["poll"], ["poll"], ["poll"]], limit=4000 if q else 60000)
+           10 if q else 11, props + ["C04"], pre=[["put"], ["poll"], ["poll"], ["poll"], ["poll"]], limit=4000 if q else 60000)
     r.solo("twonaks", "S", 'Numbered({ SoloBase(3, 1, 2), [SoloBase(3, 1, 2) EXCEPT !.closure = TRUE] })', ["poll", "nak", "ack", "fin"],
            9 if q else 10, props, pre=[["put"], ["poll"], ["nak"], ["poll"], ["poll"], ["poll"]])
     r.driver("src_random", 600 if q else 8000, props, leave=0.0)
